@@ -154,6 +154,7 @@ def run(ctx):
     r.rule("R9.4", "methods consult self.<list>, never the module-level default", floor=10)
     r.rule("R9.5", "CSS: each kept declaration is dominated by an allow-list test; url() stripped before the gauntlet", floor=4)
     element_gate(ctx)
+    svg_reference_and_css_families(ctx)
     global_substitutions(ctx)
     animation_values(ctx)
 
@@ -488,6 +489,55 @@ def animation_values(ctx):
                 "<%s attributeName=\"xlink:href\" %s=\"javascript:...\"> passes the sanitizer: the animation elements %s and the attributes "
                 "attributeName and `%s` are allowed, but `%s` is not in attr_val_is_uri, so its scheme is never checked although a browser "
                 "assigns it to the link's href" % (animators[0], a, animators, a, a), {"attribute": a}, detail={"attribute": a, "animators": animators})
+
+
+def svg_reference_and_css_families(ctx):
+    """R9.9: the pattern that strips non-local `url(...)` references from SVG presentation attributes (fill, stroke, clip-path,
+    ...) is evaluated on representatives: the function name is case-insensitive in CSS / SVG, and the reference may be one
+    character long; only `url(#local)` stays.
+    R9.10: which CSS properties survive is decided by the configured lists only: a property family that is accepted through a list
+    written into sanitize_css cannot be restricted by a custom allowed_css_properties."""
+    import re as _re
+    r = ctx.r
+    ce = ctx.ce
+    r.rule("R9.9", "non-local url() references in SVG presentation attributes are stripped whatever the case / length", floor=4)
+    r.rule("R9.10", "CSS property acceptance consults the configured lists only", floor=1)
+    at = ctx.repo.func(REL, "Filter.allowed_token")
+    subs = [c for c in ast.walk(at.node) if isinstance(c, ast.Call) and norm(c.func) == "re.sub" and c.args and "url" in str(ce.try_eval(c.args[0], at.module))]
+    if len(subs) != 1:
+        r.idiom("R9.9", False, "svg-url-reference", at.where, "the url() stripping substitution of allowed_token was not found")
+    else:
+        pat = ce.try_eval(subs[0].args[0], at.module)
+        flags = 0
+        for k in subs[0].keywords:
+            if k.arg == "flags":
+                flags = {"re.I": _re.I, "re.IGNORECASE": _re.I}.get(norm(k.value), 0)
+        if len(subs[0].args) > 4:
+            flags = {"re.I": _re.I, "re.IGNORECASE": _re.I}.get(norm(subs[0].args[4]), 0)
+        try:
+            rx = _re.compile(pat, flags)
+        except Exception:       # noqa: BLE001
+            rx = None
+        if rx is None:
+            r.idiom("R9.9", False, "svg-url-reference", at.where, "the url() pattern %r could not be compiled" % (pat,))
+        else:
+            for val, strip in (("url(http://e.example/a.svg#x)", True), ("URL(http://e.example/a.svg#x)", True), ("url(x)", True), ("Url( x.svg )", True),
+                               ("url(#local)", False), ("red", False)):
+                out = rx.sub(" ", val)
+                r.check("R9.9", ("(" not in out) == strip if strip else out == val, "svg-url-reference[%s]" % val, "%s:%d" % (REL, subs[0].lineno),
+                        "an SVG presentation attribute with the value %r comes out as %r: %s" % (
+                            val, out, "the non-local reference survives (pattern %r%s)" % (pat, "" if flags else ", case-sensitive") if strip
+                            else "a value that is no external reference is altered"), detail={"out": out})
+    sc = ctx.repo.func(REL, "Filter.sanitize_css")
+    hard = []
+    for t in ast.walk(sc.node):
+        if isinstance(t, ast.Compare) and len(t.ops) == 1 and isinstance(t.ops[0], ast.In) and isinstance(t.comparators[0], (ast.List, ast.Tuple, ast.Set)) and \
+                all(isinstance(e, ast.Constant) and isinstance(e.value, str) for e in t.comparators[0].elts) and "prop" in norm(t.left):
+            hard.append(t)
+    r.check("R9.10", not hard, "css-property-families-configurable", "%s:%d" % (REL, (hard[0].lineno if hard else sc.node.lineno)),
+            "sanitize_css accepts a property whose first component is in the list %s written into the function, whatever allowed_css_properties "
+            "says: Filter(stream, allowed_css_properties=frozenset(['color'])) keeps `margin: 1px; border-foo: red`"
+            % ([e.value for e in hard[0].comparators[0].elts] if hard else []))
 
 
 def global_substitutions(ctx):
